@@ -44,6 +44,9 @@ def worlds(tier):
         ws.append({"name": "dag-n4-order" + "".join(map(str, p)), "n": 4, "pairs": "fwd", "order": p, "split": 4, "weight": 4})
     ws.append({"name": "dag-n4-mixed-units", "n": 4, "pairs": "fwd", "order": [1, 3, 0, 2], "split": 4, "weight": 4,
                "units": ["MS", "US", "US", "MS"]})
+    ws.append({"name": "dag-n3-queried-then-changed-then-queried-again", "n": 3, "pairs": "fwd", "order": [0, 1, 2], "split": 4, "weight": 6, "mutate": True})
+    if tier != "quick":
+        ws.append({"name": "dag-n4-queried-then-changed-then-queried-again", "n": 4, "pairs": "fwd", "order": [2, 0, 3, 1], "split": 6, "weight": 30, "mutate": True})
     if tier == "quick":
         ws.append({"name": "dag-n5-le6", "n": 5, "pairs": "fwd", "order": [4, 0, 3, 1, 2], "maxe": 6, "split": 6, "weight": 20,
                    "light": True})
@@ -196,6 +199,47 @@ def run(env, w):
     dfa = [idx[t] for t in g.depth_first()]
     env.require("dfs-all-once", sorted(dfa) == list(range(n)), info=f"adj={adj} got={dfa}")
     env.observe("bfs", bf)
+    if w.get("mutate"):
+        # the answers must follow the graph when it changes *after* it has been queried (memoised results, lazily filled tables)
+        nodes = list(range(n))
+        adj2 = {i: list(v) for i, v in adj.items()}
+        node_of = dict(enumerate(tasks))
+        k = env.choose(3, "mutation")
+        if k in (0, 1):
+            extra, _ = mk_task("Nx", "G", 1)
+            node_of[n] = extra
+            nodes.append(n)
+            adj2[n] = []
+            if k == 0:
+                g.add_node(extra)  # a stand-alone node
+            else:
+                par = env.choose(n, "attach_to")
+                g.add_child(tasks[par], extra)
+                adj2[par].append(n)
+        else:
+            srcs_now = [i for i in range(n) if not parents[i]]
+            victim = srcs_now[env.choose(len(srcs_now), "victim")]
+            g.remove(tasks[victim])  # what TaskGraph.clean() does with finished sources
+            nodes.remove(victim)
+            del adj2[victim]
+        idx2 = {t: i for i, t in node_of.items()}
+        par2 = {i: [p for p in nodes if i in adj2[p]] for i in nodes}
+        tag = f"after mutation {k}: nodes={nodes} adj={adj2}"
+        topo2 = [idx2[t] for t in g.topological_sort()]
+        env.require("requery:topological-sort", sorted(topo2) == sorted(nodes), info=tag + f" got={topo2}")
+        pos2 = {v: q for q, v in enumerate(topo2)}
+        env.require("requery:topological-sort", all(i in pos2 and j in pos2 and pos2[i] < pos2[j] for i in nodes for j in adj2[i]), info=tag + f" got={topo2}")
+        env.require("requery:sources", sorted(idx2[t] for t in g.get_sources()) == sorted(i for i in nodes if not par2[i]), info=tag)
+        d2 = {}
+        for i in topo2:
+            if i in par2:
+                d2[i] = 1 + max((d2.get(p, 0) for p in par2[i]), default=0)
+        for i in nodes:
+            env.require("requery:depth", g.get_node_depth(node_of[i]) == d2.get(i), info=tag + f" node {i}")
+        bf2 = [idx2[t] for t in g.breadth_first()]
+        env.require("requery:traversal", sorted(bf2) == sorted(nodes), info=tag + f" got={bf2}")
+        dfa2 = [idx2[t] for t in g.depth_first()]
+        env.require("requery:traversal", sorted(dfa2) == sorted(nodes), info=tag + f" got={dfa2}")
     harness.finish_path(env)
 
 
